@@ -1159,6 +1159,19 @@ class Env:
 
     def value_getattr(self, it, o, name):
         """Attributes / methods of scalar and container values."""
+        if isinstance(o, EnvClass) and o.name == 'MutableMapping' and name == 'update':
+            def mm_update(it2, a, k):
+                selfv, rest = a[0], a[1:]
+                self.use('collections.abc.MutableMapping.update: self[k] = v for each given pair (stdlib docs)')
+                for src in rest:
+                    pairs = list(src.items()) if isinstance(src, dict) else self.iterate_strict(it2, src)
+                    for kv in pairs:
+                        kk, vv = it2.unpack(kv, 2)
+                        it2.setitem(selfv, kk, vv)
+                for kk, vv in k.items():
+                    it2.setitem(selfv, kk, vv)
+                return None
+            return EnvFunc('MutableMapping.update', mm_update)
         m = getattr(self, 'vm_' + name, None)
         if m is not None:
             e = EnvFunc('method.' + name, lambda it2, a, k, m=m, o=o: m(it2, o, a, k))
